@@ -29,6 +29,10 @@ FinOf(q) == SelectSeq(q, LAMBDA i : i.k = "finished")
 Succ(f) == f.cond = "NO_ERROR" /\ f.deliv = "DATA_COMPLETE" /\ f.fstat = "FILE_RETAINED"
 GoodFin(f) == f.cond = "NO_ERROR" /\ f.deliv = "DATA_COMPLETE"
 EffModeT(T) == IF T.cfg.putMode = "none" THEN T.cfg.mode ELSE T.cfg.putMode
+\* every transaction of the execution runs in acknowledged mode (cfg.more: the put requests after the first one)
+AllAckT(T) == EffModeT(T) = "ACK" /\ \A i \in DOMAIN T.cfg.more :
+                 (IF T.cfg.more[i].putMode = "none" THEN T.cfg.mode ELSE T.cfg.more[i].putMode) = "ACK"
+NTxT(T) == 1 + Len(T.cfg.more)
 EffClosureT(T) == IF T.cfg.putClosure = "none" THEN T.cfg.closure ELSE T.cfg.putClosure = "true"
 MinLimit(T) == PMin(T.cfg.ackLim, PMin(T.cfg.nakLim, T.cfg.chkLim))
 
@@ -58,7 +62,11 @@ C01(T) ==
   { V("C01", "success-reported-with-different-file", i, Kf(T), T.ev[i].side, "") :
       i \in { i \in Calls(T) : /\ ReportsSuccess(T.ev[i])
                                /\ ~FileSame(T.ev[i].fs, DstPathT(T), T.cfg.file)
-                               /\ ~FileCollides(T.ev[i].fs, DstPathT(T), T.cfg.file, T.cfg.chk) } }
+                               /\ ~(/\ FileCollides(T.ev[i].fs, DstPathT(T), T.cfg.file, T.cfg.chk)
+                                     \* the collision clause is for what only the checksum can detect (corrupted payload,
+                                     \* rejected writes, loss in unacknowledged mode), not for loss / duplication /
+                                     \* reordering / delay in acknowledged mode
+                                     /\ (T.ncorrupt > 0 \/ ~AllAckT(T))) } }
 
 \* ===== the outcome C02 and C03 demand once the link is quiet =====
 EndClauses(T) ==
@@ -66,8 +74,8 @@ EndClauses(T) ==
       fd == FinOf(IndsOf(T, "D"))
       lastFs == T.ev[LastIdx(Calls(T))].fs IN
   (IF ~T.done THEN {"handlers-not-idle-at-the-end"} ELSE {})
-  \cup (IF T.cfg.indS.finished /\ ~(Len(fs) = 1 /\ GoodFin(fs[1])) THEN {"sender-not-exactly-one-successful-finished-indication"} ELSE {})
-  \cup (IF T.cfg.indD.finished /\ ~(Len(fd) = 1 /\ GoodFin(fd[1])) THEN {"receiver-not-exactly-one-successful-finished-indication"} ELSE {})
+  \cup (IF T.cfg.indS.finished /\ ~(Len(fs) = NTxT(T) /\ \A k \in DOMAIN fs : GoodFin(fs[k])) THEN {"sender-not-exactly-one-successful-finished-indication"} ELSE {})
+  \cup (IF T.cfg.indD.finished /\ ~(Len(fd) = NTxT(T) /\ \A k \in DOMAIN fd : GoodFin(fd[k])) THEN {"receiver-not-exactly-one-successful-finished-indication"} ELSE {})
   \cup (IF ~T.cfg.mdOnly /\ ~FileSame(lastFs, DstPathT(T), T.cfg.file) THEN {"destination-file-differs"} ELSE {})
 \* ===== C02: every transfer over a fault-free link completes successfully =====
 C02(T) ==
@@ -77,7 +85,7 @@ C02(T) ==
   \cup { V("C02", "fault-callback-fired", i, Kf(T), T.ev[i].flt[1].cond, T.ev[i].flt[1].k) : i \in { i \in Calls(T) : T.ev[i].flt # <<>> } }
 \* ===== C03: acknowledged mode recovers from at most K faults when every limit exceeds K =====
 C03(T) ==
-  IF ~Has(T, "C03") \/ EffModeT(T) # "ACK" \/ T.nfaults >= MinLimit(T) THEN {} ELSE
+  IF ~Has(T, "C03") \/ ~AllAckT(T) \/ T.nfaults >= MinLimit(T) THEN {} ELSE
   { V("C03", c, Len(T.ev), Kf(T), "", "") : c \in EndClauses(T) }
 
 \* ===== C10: only protocol exceptions, only when the caller is at fault =====
